@@ -33,24 +33,31 @@ class Sum(Aggregation):
         return result
 
 
+def _divide(totals, counts):
+    """ ``totals / counts`` where a scalar count of zero gives NaN
+
+    This is what Pandas returns for the mean of no values.  The state keeps
+    the true count, so later batches are not affected.
+    """
+    if isinstance(counts, Number) and counts == 0:
+        return np.nan
+    return totals / counts
+
+
 class Mean(Aggregation):
     def on_new(self, acc, new):
         totals, counts = acc
         if len(new):
             totals = totals + new.sum()
             counts = counts + new.count()
-        if isinstance(counts, Number) and counts == 0:
-            counts = 1
-        return (totals, counts), totals / counts
+        return (totals, counts), _divide(totals, counts)
 
     def on_old(self, acc, old):
         totals, counts = acc
         if len(old):
             totals = totals - old.sum()
             counts = counts - old.count()
-        if isinstance(counts, Number) and counts == 0:
-            counts = 1
-        return (totals, counts), totals / counts
+        return (totals, counts), _divide(totals, counts)
 
     def initial(self, new):
         s, c = new.sum(), new.count()
@@ -94,6 +101,8 @@ class Var(Aggregation):
         self.ddof = ddof
 
     def _compute_result(self, x, x2, n):
+        if isinstance(n, Number) and n == 0:
+            return np.nan
         result = (x2 / n) - (x / n) ** 2
         if self.ddof != 0:
             result = result * n / (n - self.ddof)
